@@ -15,12 +15,16 @@ pub fn gen_case(c: &mut Choices) -> Case {
     let tsx = c.chance(1, 3);
     let mut opts = any_opts(c, true, tsx);
     let jsx = c.chance(3, 4);
+    if tsx && c.chance(2, 3) {
+        opts.resolve_type = true;
+    }
     let knobs = Knobs {
         tsx,
         unusual: false,
         adversarial: false,
         jsx,
         max_items: 6,
+        force_define_component: tsx && opts.resolve_type && c.chance(1, 2),
         ..Knobs::default()
     };
     let mut g = G::new(c, knobs);
